@@ -18,9 +18,13 @@ impl AtomicF64 {
     }
     pub fn store(&self, value: f64, ordering: Ordering) {
         let as_u64 = value.to_bits();
+        #[cfg(feature = "verif")]
+        crate::verif_hooks::sched_point("store");
         self.storage.store(as_u64, ordering);
     }
     pub fn load(&self, ordering: Ordering) -> f64 {
+        #[cfg(feature = "verif")]
+        crate::verif_hooks::sched_point("load");
         let as_u64 = self.storage.load(ordering);
         f64::from_bits(as_u64)
     }
